@@ -45,6 +45,17 @@ type Case struct {
 	PartialPct     int // probability of a partial chunk
 	BigChunks      bool
 	HugeLine       bool // one line of 41 partial chunks of 16 KiB (> 512 KiB joined, below split_event_size) per stream
+
+	// monitoring output: how long an event stays un-encoded inside the output
+	OutHold  int  `json:",omitempty"` // 0 = encode and commit inside Out; K = keep the event until K later events arrived (or the output is idle)
+	OutBatch bool `json:",omitempty"` // commit K+1 events at once (a batch) instead of a sliding window
+
+	// match conditions on the join / join_template action itself
+	Match      string `json:",omitempty"` // "" | and | or | and_prefix | or_prefix | regex | invert | do_if
+	NoMatchPct int    `json:",omitempty"` // share of events that do not satisfy the conditions
+	// lengths of successive runs: "" as drawn | equal (every value has the same length) | saw (long run, then shorter ones)
+	RunShape string `json:",omitempty"`
+	ShapeLen int    `json:",omitempty"`
 }
 
 // Line is one input line of one (source, stream).
@@ -61,6 +72,11 @@ type Line struct {
 	Value    string
 	Drop     bool
 	Sentinel bool
+	NoMatch  bool   `json:",omitempty"` // the event does not satisfy the match conditions of the join action
+	Svc      string `json:",omitempty"`
+	Lvl      string `json:",omitempty"`
+	HasSvc   bool   `json:",omitempty"`
+	HasLvl   bool   `json:",omitempty"`
 	RestCan  string `json:"-"` // canonical form of the other members of the event
 
 	// k8s
@@ -80,8 +96,14 @@ type OutRec struct {
 	N      int
 	Src    uint64
 	Stream string
-	JSON   string
-	T      int64
+	// JSON is the event as encoded when the output let go of it (right before
+	// Commit, after HeldFor later events had arrived); JSONAtOut is the encoding
+	// taken inside Out, kept only if the two differ.
+	JSON      string
+	JSONAtOut string
+	Changed   string // what changed while the output held the event ("" = nothing)
+	HeldFor   int    // events that reached the output while this one was held
+	T         int64
 }
 
 // Viol is one refuting observation.
